@@ -9,6 +9,8 @@ mod common;
 
 mod c02;
 mod c02_conn;
+mod c03;
+mod scen;
 mod c16;
 
 use explore::report::Tier;
@@ -44,6 +46,7 @@ fn main() {
     let args = Args { tier, seed };
     let code = match argv[1].as_str() {
         "C02" => c02::run(&args),
+        "C03" => c03::run(&args),
         "C16" => c16::run(&args),
         other => {
             eprintln!("unknown property {other}");
@@ -75,6 +78,7 @@ fn replay(path: &str) -> i32 {
     let r = &v["replay"];
     match prop {
         "C02" => c02::replay(r),
+        "C03" => c03::replay(r),
         "C16" => c16::replay(r),
         other => {
             eprintln!("no replay for property {other}");
